@@ -166,6 +166,14 @@ type Spec struct {
 	// RtSlash: the runtime's slash amount for equivocation (0 = the runtime does not slash); RtMaxInMsgs: size of the
 	// runtime's incoming message queue (0 = disabled).
 	RtSlash     uint64 `json:"rt_slash"`
+	// Liveness evaluation of the runtime's workers (RtMinLivePct = 0: off): minimum share of live rounds, rounds needed for
+	// an evaluation, failures tolerated before the node is frozen (0 = never) and slashed, allowed share of missed proposals.
+	RtMinLivePct   uint8  `json:"rt_min_live_pct"`
+	RtMinLiveEval  uint64 `json:"rt_min_live_eval"`
+	RtMaxLiveFail  uint8  `json:"rt_max_live_fail"`
+	RtMaxMissedPct uint8  `json:"rt_max_missed_pct"`
+	RtLiveSlash    uint64 `json:"rt_live_slash"`
+	RtLiveFreeze   uint64 `json:"rt_live_freeze"`
 	RtMaxInMsgs uint32 `json:"rt_max_in_msgs"`
 	// RtOwner: index of the entity that owns (governs) the runtime; 0 = the anchor entity.
 	RtOwner        int    `json:"rt_owner"`
@@ -560,6 +568,16 @@ func BuildGenesis(spec *Spec) (*World, error) {
 			}
 		}
 		rt.TxnScheduler.MaxInMessages = spec.RtMaxInMsgs
+		if spec.RtMinLivePct > 0 {
+			rt.Executor.MinLiveRoundsPercent = spec.RtMinLivePct
+			rt.Executor.MinLiveRoundsForEvaluation = spec.RtMinLiveEval
+			rt.Executor.MaxLivenessFailures = spec.RtMaxLiveFail
+			rt.Executor.MaxMissedProposalsPercent = spec.RtMaxMissedPct
+			if rt.Staking.Slashing == nil {
+				rt.Staking.Slashing = map[staking.SlashReason]staking.Slash{}
+			}
+			rt.Staking.Slashing[staking.SlashRuntimeLiveness] = staking.Slash{Amount: q(spec.RtLiveSlash), FreezeInterval: beacon.EpochTime(spec.RtLiveFreeze)}
+		}
 		w.Runtime = rt
 		doc.Registry.Runtimes = append(doc.Registry.Runtimes, rt)
 	}
